@@ -384,8 +384,13 @@ pub(crate) mod verif_state {
         #[kani::unwind(3)]
         fn repoll_panics() {
             let ch = Chan::<NoopLock>::new();
-            core::mem::forget(ch.send(Tag(1)));
-            repoll_after_ready(ch.receive(StateId(0)));
+            // both completion paths: Some((id, value)) after send, None after close (with or without a state)
+            let sent: bool = kani::any();
+            let closed: bool = kani::any();
+            kani::assume(sent || closed);
+            if sent { core::mem::forget(ch.send(Tag(1))); }
+            if closed { let _ = ch.close(); }
+            repoll_after_ready(ch.receive(if sent && closed && kani::any() { StateId(1) } else { StateId(0) }));
         }
         #[kani::proof]
         #[kani::unwind(7)]
